@@ -434,3 +434,23 @@ _RULE_ADD2 = {
 _RULE_ADD2['C12'] = _RULE_ADD2['C11']
 for _p, _t in _RULE_ADD2.items():
     PROPS[_p]['rule'] = PROPS[_p]['rule'] + _t
+
+# features added after the eighth and ninth round
+for _p, _m in {'C04': {'late_ageing_passes': 150}, 'C06': {'late_ageing_passes': 150}, 'C11': {'restarts_with_router_on_a_leased_address': 60},
+               'C12': {'restarts_with_router_on_a_leased_address': 60}, 'C13': {'stophunt_with_ipv6_or_no_address': 5}}.items():
+    PROPS[_p]['min_obs'] = dict(PROPS[_p]['min_obs'])
+    PROPS[_p]['min_obs']['quick'] = dict(PROPS[_p]['min_obs'].get('quick', {}), **_m)
+_RULE_ADD3 = {
+    'C04': ' Op latepass: one ageing pass whose clock is past the offline / purge deadline of hosts that are still online.',
+    'C07': ' NBNS queries are sent for names of up to 44 characters and the question label is decoded (RFC 1001 first level encoding).',
+    'C11': ' Restarts may come back with the router replaced and sitting on a leased address (the table is reset by design, the address is the router\'s now).',
+    'C13': ' StopHunt is also called with the station\'s IPv6 address or none (the hunt is keyed by MAC).',
+    'C14': ' Advertisements may carry an MTU option of the wrong length after a valid one, several route information options, prefix lengths 0..128.',
+    'C19': ' The peer\'s echo datagrams carry random DSCP / traffic class / flow label, IPv4 options, and echo all, part or none of the data.',
+    'C03': ' A third of the chains hand EncodeIP6 / EncodeUDP input slices of length 0..40 with capacity behind them; both UDP ports may come from the port table.',
+    'C16': ' The first fragment of a fragmented UDP datagram is a well-formed frame; the allocation clause also covers frames the reference finds well-formed and Parse rejects.',
+}
+_RULE_ADD3['C05'] = _RULE_ADD3['C06'] = _RULE_ADD3['C04']
+_RULE_ADD3['C12'] = _RULE_ADD3['C11']
+for _p, _t in _RULE_ADD3.items():
+    PROPS[_p]['rule'] = PROPS[_p]['rule'] + _t
